@@ -123,6 +123,7 @@ Definition interp1d (xs ys : list T) (x : T) : option T :=
 Definition loss_coef (fb : fiber) (f : T) : res T :=
   match fb_loss fb with
   | LossScalar v => Ok (v * dec 1 (-3))
+  | LossTable [_] [v] => Ok (v * dec 1 (-3))          (* loss_coef.size == 1: used as a scalar *)
   | LossTable fs vs =>
       match interp1d fs (map (fun v => v * dec 1 (-3)) vs) f with
       | Some v => Ok v
@@ -139,6 +140,7 @@ Definition beta2 (fb : fiber) (f : T) : res T :=
     | DispDefault => Ok (nsq (f / ref_frequency fb) * dec 167 (-7))
     | DispScalar d => Ok (nsq (f / ref_frequency fb) * d)
     | DispSlope d s => Ok (d + s * (c_light / f - c_light / ref_frequency fb))
+    | DispTable [f0] [d] => Ok (nsq (f / f0) * d)    (* dispersion.size == 1: scalar referred to f0 *)
     | DispTable fs vs =>
         match interp1d fs vs f with
         | Some v => Ok v
